@@ -1,2 +1,8 @@
 import ShuttleModel.Clock
 import ShuttleModel.Kernel
+import ShuttleModel.Bits
+import ShuttleModel.Varint
+import ShuttleModel.Serialize
+import ShuttleModel.Rng
+import ShuttleModel.RngVectors
+import ShuttleModel.Sched.Dfs
